@@ -3,6 +3,7 @@ package memory
 import (
 	simplefixgo "github.com/b2broker/simplefix-go"
 	"github.com/b2broker/simplefix-go/fix"
+	"github.com/b2broker/simplefix-go/session/messages"
 	"sync"
 	"sync/atomic"
 )
@@ -57,11 +58,35 @@ func (s *Storage) SetSeqNum(storageID fix.StorageID, seqNum int) error {
 	return nil
 }
 
+// storedMessage is the frozen form of a sent message: the application may go on using
+// (and re-sending) its message object, so the bytes and the sequence number are kept, not the object.
+type storedMessage struct {
+	msgType string
+	header  messages.HeaderBuilder
+	data    []byte
+}
+
+func (m *storedMessage) HeaderBuilder() messages.HeaderBuilder { return m.header }
+func (m *storedMessage) MsgType() string                       { return m.msgType }
+func (m *storedMessage) ToBytes() ([]byte, error)              { return m.data, nil }
+
 // Save saves a message with seq number to storage
 func (s *Storage) Save(_ fix.StorageID, msg simplefixgo.SendingMessage, msgSeqNum int) error {
+	stored, ok := msg.(*storedMessage)
+	if !ok {
+		data, err := msg.ToBytes()
+		if err != nil {
+			return err
+		}
+		stored = &storedMessage{msgType: msg.MsgType(), data: append([]byte(nil), data...)}
+		if header := msg.HeaderBuilder(); header != nil {
+			stored.header = header.New().SetFieldMsgSeqNum(msgSeqNum)
+		}
+	}
+
 	s.mu.Lock()
 	defer s.mu.Unlock()
-	s.messages[msgSeqNum] = msg
+	s.messages[msgSeqNum] = stored
 	return nil
 }
 
